@@ -21,7 +21,7 @@ def classify(x, v):
             "file": "column" if (x.desc["file"] or "").endswith(".gpf") else (x.desc["file"] or "")[:9]}
 
 
-def run_enumeration(run, mode, configs, per_session_limit=None):
+def run_enumeration(run, mode, configs, per_session_limit=None, torn=False):
     """configs: list of (hist, enc, profile, seed, errnos). Returns number of experiments."""
     vh = vlib.build_vh("store")
     if not sx.strace_ok():
@@ -47,12 +47,17 @@ def run_enumeration(run, mode, configs, per_session_limit=None):
                     for errno in (errnos if mode == "fault" else [None]):
                         xid += 1
                         jobs.append((vh, base, hist, states[s_idx], s_idx, p, mode, errno, seed, enc, profile, xid, recorded))
+                    if mode == "kill" and torn and p.get("torn"):
+                        n = len(p["torn"]["data"])
+                        for k in sorted({1, n // 2, n - 1} - {0, n}):
+                            xid += 1
+                            jobs.append((vh, base, hist, states[s_idx], s_idx, dict(p, dbroot=""), "torn", k, seed, enc, profile, xid, recorded))
             xs = sx.parallel(sx.run_experiment, jobs)
             bad = [x for x in xs if x.error]
             vlib.require(len(bad) <= len(xs) // 20, "too many failed experiments: %s" % [b.error for b in bad[:3]])
             # a killed child's events must be a prefix of the recorded session (deterministic child)
             for x in xs:
-                if x.error or x.desc["mode"] != "kill":
+                if x.error or x.desc["mode"] not in ("kill",):
                     continue
                 s_idx = x.desc["session"]
                 pre = sum(len(recorded[k]) for k in range(s_idx)) + 1
